@@ -141,6 +141,10 @@ func zzC16Wrapper() {
 	argsAbsent := vBool("argumentsAbsent")
 	if !argsAbsent {
 		req.Params.Arguments = vJSON(args)
+	} else if vBool("argumentsAreJSONNull") {
+		// "arguments": null — for the wrapper the same as no arguments at all (D12: it used to leave a nil map behind,
+		// into which the defaults were then written: a panic in the handler goroutine)
+		req.Params.Arguments = json.RawMessage("null")
 	}
 	res, herr := th(context.Background(), req)
 
